@@ -1,4 +1,6 @@
 import TCV.Lemmas.Inj
+import TCV.Lemmas.PyReprInj
+import TCV.Model.AutoObj
 import TCV.Lemmas.Sort
 import TCV.Model.Key
 import TCV.Lemmas.KeyInj
@@ -161,5 +163,25 @@ example : InputsOK (inputsView (some "n".toList) [("n::g:up".toList, "0af3".toLi
 /-! non-vacuity of the partial theorem's hypotheses on a nested, non-trivial value -/
 example : WF (canon (.dict [("b".toList, .list [.atom "1".toList, .str "x y".toList]), ("a".toList, .atom "None".toList)])) := by
   simp [canon, canonD, canonL, sortItems, isort, insertBy, strLe, WF, WFD, WFL, isDelim, q]
+
+/-! ## values written with Python's escaping `repr`: `Path`-typed parameters, substituted strings, string arguments of parameter objects -/
+
+/-- a `Path`-typed parameter: the text determines the configured string (no quote-splicing possible here, unlike K1) -/
+theorem path_value_injective (pr : Char → Bool) (p p' : Param) (hp : p.isPath = true) (hp' : p'.isPath = true)
+    (s s' : Str) (hv : p.value = .str s) (hv' : p'.value = .str s') (h : valueRepr pr p = valueRepr pr p') : s = s' := by
+  simp only [valueRepr, hp, hp', hv, hv', if_true] at h
+  exact PVal.pyRepr_injective pr s s' h
+
+/-- a substituted string (`ReprStr`) is represented by its source text, and the representation determines that source text -/
+theorem substituted_source_injective (pr : Char → Bool) (v v' o o' : Str)
+    (h : reprInst pr (.rstr v o) = reprInst pr (.rstr v' o')) : o = o' := by
+  simp only [reprInst, canon, reprRaw] at h
+  exact PVal.pyRepr_injective pr o o' h
+
+/-- string arguments of an `AutoParameterObject`: different strings, different texts -/
+theorem auto_string_arg_injective (pr : Char → Bool) (s s' : Str)
+    (h : AutoObj.pyReprV pr (.str s) = AutoObj.pyReprV pr (.str s')) : s = s' := by
+  simp only [AutoObj.pyReprV] at h
+  exact PVal.pyRepr_injective pr s s' h
 
 end TCV.C03
